@@ -31,13 +31,19 @@ def gen_tab():
     import sugar._io.tab.core as C
     import sugar._io.tab.mmseqs as M
     import sugar._io.tab.infernal as I
-    need(isinstance(C._HEADER, dict) and list(C._HEADER) == ['blast', 'mmseqs', 'infernal'],
-         '_HEADER keys are %r' % (list(C._HEADER),))
+    # the tables are only ever indexed by key / searched by unique name: they are emitted in a canonical order, so that a
+    # reordering of the source (which cannot change any lookup) does not change the generated file
+    DIALECTS = ['blast', 'mmseqs', 'infernal']
+    need(isinstance(C._HEADER, dict) and sorted(C._HEADER) == sorted(DIALECTS), '_HEADER keys are %r' % (list(C._HEADER),))
     body = ['Inductive coltype := TStr | TInt | TFloat.']
-    for d, hs in C._HEADER.items():
+    for d in DIALECTS:
+        hs = C._HEADER[d]
         need(isinstance(hs, list) and hs, '_HEADER[%r] is not a non-empty list' % d)
+        for attr in ('name', 'long_name'):      # the two attributes _headers_from_fmtstrings searches by
+            vals = [getattr(h, attr) for h in hs if hasattr(h, attr)]
+            need(len(set(vals)) == len(vals), '%s values of %s are not unique (then the order of the list matters)' % (attr, d))
         rows = []
-        for h in hs:
+        for h in sorted(hs, key=lambda h: h.name):
             need(isinstance(h, tuple) and hasattr(h, 'name') and hasattr(h, 'type'), 'header entry %r' % (h,))
             need(h.type in TYPES, 'column type %r of %s.%s' % (h.type, d, h.name))
             need(set(h._fields) <= {'name', 'long_name', 'type', 'blast_equivalent'}, 'header fields %r' % (h._fields,))
@@ -46,14 +52,16 @@ def gen_tab():
             need(isinstance(h.name, str) and isinstance(long_name, str), 'names of %r' % (h,))
             rows.append('(%s, %s, %s, %s)' % (blit(h.name), blit(long_name), TYPES[h.type], _opt(beq)))
         body.append('Definition HEADER_%s : list (str * str * coltype * option str) :=\n  [' % d + ';\n   '.join(rows) + '].')
-    need(isinstance(C._CONVERTH, dict) and list(C._CONVERTH) == ['blast', 'mmseqs', 'infernal'], '_CONVERTH keys')
-    for d, m in C._CONVERTH.items():
+    need(isinstance(C._CONVERTH, dict) and sorted(C._CONVERTH) == sorted(DIALECTS), '_CONVERTH keys')
+    for d in DIALECTS:
+        m = C._CONVERTH[d]
         need(isinstance(m, dict), '_CONVERTH[%r]' % d)
+        m = dict(sorted(m.items(), key=lambda kv: (kv[0] is not None, kv[0] or '')))
         body.append('Definition CONVERTH_%s : list (option str * str) :=\n  [' % d +
                     '; '.join('(%s, %s)' % (_opt(k), blit(v)) for k, v in m.items()) + '].')
     need(isinstance(C._DEFAULT_OUTFMT, dict), '_DEFAULT_OUTFMT')
     body.append('Definition DEFAULT_OUTFMT : list (str * list str) :=\n  [' +
-                ';\n   '.join('(%s, %s)' % (blit(k), _strlist(v)) for k, v in C._DEFAULT_OUTFMT.items()) + '].')
+                ';\n   '.join('(%s, %s)' % (blit(k), _strlist(v)) for k, v in sorted(C._DEFAULT_OUTFMT.items())) + '].')
     need(isinstance(C._MMSEQS_HEADER_NAMES, list) and M._MMSEQS_HEADER_NAMES is C._MMSEQS_HEADER_NAMES, '_MMSEQS_HEADER_NAMES')
     body.append('Definition MMSEQS_HEADER_NAMES : list str := %s.' % _strlist(C._MMSEQS_HEADER_NAMES))
     need(isinstance(C.copyattrs, list) and all(isinstance(t, tuple) and len(t) == 2 for t in C.copyattrs), 'copyattrs')
@@ -68,11 +76,11 @@ def gen_tab():
     dn = dicts[0]
     need(all(isinstance(v, ast.Constant) and isinstance(v.value, str) for v in dn.values), 'column-count map values')
     body.append('Definition INFERNAL_NCOLS : list (Z * str) := [' +
-                '; '.join('(%d%%Z, %s)' % (k.value, blit(v.value)) for k, v in zip(dn.keys, dn.values)) + '].')
+                '; '.join('(%d%%Z, %s)' % (k.value, blit(v.value)) for k, v in sorted(zip(dn.keys, dn.values), key=lambda kv: kv[0].value)) + '].')
     tups = [n for n in ast.walk(_fn_ast(I.is_fts_infernal)) if isinstance(n, ast.Tuple) and n.elts and
             all(isinstance(e, ast.Constant) and isinstance(e.value, int) and not isinstance(e.value, bool) for e in n.elts)]
     need(len(tups) == 1, 'expected exactly one tuple of ints in is_fts_infernal, found %d' % len(tups))
-    body.append('Definition INFERNAL_SNIFF_NCOLS : list Z := [' + '; '.join('%d%%Z' % e.value for e in tups[0].elts) + '].')
+    body.append('Definition INFERNAL_SNIFF_NCOLS : list Z := [' + '; '.join('%d%%Z' % v for v in sorted(e.value for e in tups[0].elts)) + '].')
     # signature defaults of the reader wrappers (sep)
     import sugar._io.tab.blast as B
     for nm, fn in (('blast', B.read_fts_blast), ('mmseqs', M.read_fts_mmseqs)):
